@@ -133,6 +133,32 @@ pub fn run_c08(ctx: &Ctx) -> Report {
         if ox != fx || engine::canon(&orig) != engine::canon(&f1) { rep.violate("property", "c08-clone-leak", "the original observes its clone's later changes (or vice versa): original differs from a fresh run of the same commands".into(), prog.clone()); }
         if cy != fy || engine::canon(&cl) != engine::canon(&f2) { rep.violate("property", "c08-clone-leak", "the clone differs from a fresh run of the same commands".into(), prog); }
     }
+    // (e) tables declared AFTER clone(): the original and the clone (or two clones) each declare their own tables and
+    // then use them; each must behave like a fresh engine that ran the same commands — in particular through the
+    // name-indexed read API (`constructor_enodes`, `function_entries`), which resolves names through the bridge's
+    // action registry (defect 18: `#[derive(Clone)]` shares that `Arc<RwLock<ActionRegistry>>` between clones)
+    for k in 0..ctx.n(12, 120) {
+        let decls = ["(constructor A () E)", "(constructor B () E)", "(constructor G (E) E)", "(function lo (E) i64 :merge (min old new))", "(relation R (E E))"];
+        let mut oa: Vec<usize> = (0..decls.len()).collect(); let mut ob = oa.clone();
+        if k > 0 { for i in (1..oa.len()).rev() { oa.swap(i, rng.below(i + 1)); ob.swap(i, rng.below(i + 1)); } }
+        let pre = if k % 3 == 2 { "(sort E)" } else { "" };     // the sort before or after the clone
+        let hdr = |o: &[usize]| format!("{}{}", if pre.is_empty() { "(sort E)\n" } else { "" }, o.iter().map(|i| decls[*i]).collect::<Vec<_>>().join("\n"));
+        let facts = ["(G (A))", "(G (B))", "(R (A) (B))", "(set (lo (A)) 3)", "(union (A) (G (A)))"];
+        let mut base = EGraph::default(); if !pre.is_empty() { run_all(&mut base, &[pre.to_string()]); }
+        let (mut a, mut b) = (base.clone(), base.clone());
+        let (ha, hb) = (hdr(&oa), hdr(&ob));
+        run_all(&mut a, &[ha.clone()]); run_all(&mut b, &[hb.clone()]);
+        let nf = 2 + rng.below(4);
+        let fa: Vec<String> = (0..nf).map(|_| facts[rng.below(facts.len())].to_string()).collect();
+        let fb: Vec<String> = (0..nf).map(|_| facts[rng.below(facts.len())].to_string()).collect();
+        for i in 0..nf { run_all(&mut a, &fa[i..i + 1]); run_all(&mut b, &fb[i..i + 1]); }
+        rep.evaluations += 1; rep.note_nontrivial(&("declared-after-clone", k));
+        for (which, eg, h, f) in [("first", &a, &ha, &fa), ("second", &b, &hb, &fb)] {
+            let mut fresh = EGraph::default(); if !pre.is_empty() { run_all(&mut fresh, &[pre.to_string()]); } run_all(&mut fresh, &[h.clone()]); run_all(&mut fresh, f);
+            let (got, want) = (engine::canon(eg), engine::canon(&fresh));
+            if got != want { rep.violate("property", "c08-clones-share-action-registry", format!("the {which} of two clones of one e-graph, after both declared their tables, does not read like a fresh engine that ran the same commands (name-indexed read API): {} vs {}", got.join("; ").chars().take(160).collect::<String>(), want.join("; ").chars().take(160).collect::<String>()), json!({"before_clone": pre, "first_clone": {"declares": h, "then": f}, "second_clone": {"declares": hb, "then": fb}})); break; }
+        }
+    }
     // (d) bridge level: a write staged on the original must survive a flush on the clone (defect 9)
     {
         use egglog_bridge::{ColumnTy, DefaultVal, FunctionConfig, MergeFn, TableAction};
@@ -268,7 +294,7 @@ pub fn run_c06(ctx: &Ctx) -> Report {
         // the ORDER of the rows printed by print-function is insertion order, which legitimately depends on the thread
         // count (C20 promises it for one thread only): compare the printed rows as a set
         let norm = |s: String| -> String { let mut ls: Vec<&str> = s.split("\\n").map(|l| l.trim()).filter(|l| !l.is_empty()).collect(); ls.sort(); ls.join(" | ") };
-        let run = |threads: usize| -> Vec<String> { let mut eg = EGraph::default().with_num_threads(threads); chunks.iter().map(|c| norm(run_all(&mut eg, std::slice::from_ref(c)).remove(0))).collect() };
+        let run = |threads: usize| -> Vec<String> { let mut eg = crate::engine::fresh("plain", threads); chunks.iter().map(|c| norm(run_all(&mut eg, std::slice::from_ref(c)).remove(0))).collect() };
         let want = run(1);
         for threads in [2usize, 4] { let got = run(threads); rep.note_nontrivial(&("relax", ri, threads)); rep.count("parallel_configurations_run", 1);
             if got != want { let k = got.iter().zip(&want).position(|(x, y)| x != y).unwrap_or(0);
